@@ -10,9 +10,10 @@
 (* anywhere ("every message is delivered before the next timer expires"),  *)
 (* and then it is the timer that is due first; the clock jumps to its due  *)
 (* instant.  Optionally one set of validators (any member of CutSets) is   *)
-(* completely cut off AT ANY MOMENT after start-up - it hears nothing and  *)
-(* nobody hears it; whatever was pending to or from it is lost - until the *)
-(* partition heals after HealAfter further timer expiries.                 *)
+(* completely cut off - it hears nothing and nobody hears it; whatever was *)
+(* pending to or from it is lost - right after start-up or (CutAnyTime) at *)
+(* any later moment, until the partition heals after HealAfter further     *)
+(* timer expiries.                                                         *)
 (*                                                                         *)
 (* Properties:                                                             *)
 (*   Agreement                                                             *)
@@ -25,7 +26,7 @@
 (***************************************************************************)
 EXTENDS Integers, Sequences, FiniteSets, TLC, Json
 
-CONSTANTS N, H, Silent, CutSets, HealAfter, AmevOn, MaxView, Emit, CoverMod
+CONSTANTS N, H, Silent, CutSets, CutAnyTime, HealAfter, RestartSet, AmevOn, MaxView, Emit, CoverMod
 
 Node == INSTANCE DbftNode WITH DevEarlyCommitUnverified <- TRUE, Weaken <- {}
 
@@ -38,8 +39,8 @@ LedgerD(i, d) == [height |-> IF d THEN H ELSE H - 1, tip |-> IF d THEN "T:tip2" 
 
 VARIABLES xs,      \* live validator -> node state
           pend,    \* set of <<payload, receiver>> not yet delivered
-          now, cut, phase, fired, hist
-vars == <<xs, pend, now, cut, phase, fired, hist>>
+          now, cut, phase, fired, restarted, hist
+vars == <<xs, pend, now, cut, phase, fired, restarted, hist>>
 
 EnvOf(i) == [now |-> now, ledger |-> LedgerD(i, xs[i].started /\ xs[i].blockDone),   \* the application's ledger advances with the accepted block
              known |-> {}, pool |-> <<>>, bad |-> {}, failPre |-> 0, failBlock |-> 0, nilBlock |-> FALSE,
@@ -59,14 +60,14 @@ Rec(i, call, arg, env, o) ==
                                                                         kind |-> IF CutSets = {} THEN "silent" ELSE "partition"] ELSE <<>>))
                       ELSE <<>>]
 
-Init == /\ xs = [i \in Live |-> Node!Blank(Cfg)] /\ pend = {} /\ now = T0 /\ cut = {} /\ phase = "before" /\ fired = 0 /\ hist = [evs |-> <<>>]
+Init == /\ xs = [i \in Live |-> Node!Blank(Cfg)] /\ pend = {} /\ now = T0 /\ cut = {} /\ phase = "init" /\ fired = 0 /\ restarted = {} /\ hist = [evs |-> <<>>]
 
 StartNode(i) ==
   /\ ~xs[i].started /\ \A j \in Live : j < i => xs[j].started
   /\ \E o \in Node!Api(xs[i], "Start", [ts |-> 4000], EnvOf(i)) :
        /\ Rec(i, "Start", [ts |-> 4000], EnvOf(i), o)
        /\ pend' = pend \cup Sent(i, o.out)
-  /\ UNCHANGED <<now, cut, phase, fired>>
+  /\ UNCHANGED <<now, cut, phase, fired, restarted>>
 AllStarted == \A i \in Live : xs[i].started
 
 Deliver(m, i) ==
@@ -74,7 +75,7 @@ Deliver(m, i) ==
   /\ \E o \in Node!Api(xs[i], "OnReceive", m, EnvOf(i)) :
        /\ Rec(i, "OnReceive", m, EnvOf(i), o)
        /\ pend' = (pend \ {<<m, i>>}) \cup Sent(i, o.out)
-  /\ UNCHANGED <<now, cut, phase, fired>>
+  /\ phase' = (IF phase = "init" THEN "before" ELSE phase) /\ UNCHANGED <<now, cut, fired, restarted>>
 
 Undecided == {i \in Live : ~xs[i].blockDone}
 Due(i) == xs[i].timer.due
@@ -89,27 +90,40 @@ Fire(i) ==
      /\ \E o \in Node!Api(xs[i], "OnTimeout", arg, env) :
           /\ Rec(i, "OnTimeout", arg, env, o)
           /\ pend' = Sent(i, o.out)
-  /\ fired' = (IF phase = "cut" THEN fired + 1 ELSE fired) /\ UNCHANGED <<cut, phase>>
+  /\ fired' = (IF phase = "cut" THEN fired + 1 ELSE fired) /\ phase' = (IF phase = "init" THEN "before" ELSE phase) /\ UNCHANGED <<cut, restarted>>
 
-Partition(S) == /\ AllStarted /\ phase = "before" /\ ~\A i \in Live : xs[i].blockDone
+Partition(S) == /\ AllStarted /\ (phase = "init" \/ (CutAnyTime /\ phase = "before")) /\ ~\A i \in Live : xs[i].blockDone
                 /\ cut' = S /\ phase' = "cut" /\ fired' = 0
                 /\ pend' = {p \in pend : p[2] \notin S /\ p[1].from \notin S}      \* in flight to or from the cut-off side: lost
-                /\ UNCHANGED <<xs, now, hist>>
+                /\ UNCHANGED <<xs, now, restarted, hist>>
 Heal == /\ phase = "cut" /\ pend = {} /\ fired >= HealAfter
-        /\ cut' = {} /\ phase' = "healed" /\ UNCHANGED <<xs, pend, now, fired, hist>>
+        /\ cut' = {} /\ phase' = "healed" /\ UNCHANGED <<xs, pend, now, fired, restarted, hist>>
 
-Next == (\E i \in Live : StartNode(i)) \/ (\E p \in pend : Deliver(p[1], p[2])) \/ (\E i \in Live : Fire(i)) \/ Heal \/ (\E S \in CutSets : Partition(S))
+\* a validator of RestartSet loses its consensus state once (process restart), at a quiet moment, unless it has (pre)committed
+\* (a validator that forgets its own commit is a Byzantine fault, not a restart) or already finished the height
+Restart(i) ==
+  /\ AllStarted /\ i \in RestartSet \ restarted /\ pend = {} /\ ~xs[i].blockDone /\ ~Node!Locked(xs[i])
+  /\ \E o \in Node!Api(Node!Blank(Cfg), "Start", [ts |-> 4000], [EnvOf(i) EXCEPT !.nonce = ToString(300 + 10 * i)]) :
+       /\ xs' = [xs EXCEPT ![i] = Strip(o)]
+       /\ hist' = [evs |-> IF Emit THEN Append(hist.evs, [n |-> i, call |-> "Restart", arg |-> [ts |-> 4000], env |-> [EnvOf(i) EXCEPT !.nonce = ToString(300 + 10 * i)],
+                                                       done |-> FALSE, cfg |-> Cfg]) ELSE <<>>]
+       /\ pend' = Sent(i, o.out)
+  /\ restarted' = restarted \cup {i} /\ UNCHANGED <<now, cut, phase, fired>>
+
+Next == (\E i \in Live : StartNode(i)) \/ (\E p \in pend : Deliver(p[1], p[2])) \/ (\E i \in Live : Fire(i)) \/ Heal \/ (\E S \in CutSets : Partition(S)) \/ (\E i \in Live : Restart(i))
 Spec == Init /\ [][Next]_vars /\ WF_vars(Next)
-View == <<xs, pend, now, cut, phase, fired>>
+View == <<xs, pend, now, cut, phase, fired, restarted>>
 Bound == \A i \in Live : xs[i].started => xs[i].v <= MaxView
 
 -----------------------------------------------------------------------------
 Agreement == \A i, j \in Live : (xs[i].blockDone /\ xs[j].blockDone) => Node!CtxBlock(xs[i]) = Node!CtxBlock(xs[j])
-ViewBound == \A i \in Live : xs[i].blockDone => xs[i].v <= Cardinality(Silent) + (IF phase = "before" THEN 0 ELSE MaxView)
+ViewBound == \A i \in Live : xs[i].blockDone => xs[i].v <= Cardinality(Silent) + (IF phase \in {"init", "before"} /\ restarted = {} THEN 0 ELSE MaxView)
 AllDecided == \A i \in Live : xs[i].blockDone
 Termination == <>AllDecided
 \* nobody is ever left without a timer (C10 in the closed system)
 TimersArmed == \A i \in Live : (xs[i].started /\ ~xs[i].blockDone) => xs[i].timer.k = "t"
 
+\* random simulation (large N): print the schedule of every run that reaches the end
+EmitDone == (Emit /\ AllDecided) => PrintT(<<"BEHAVIOUR", ToJson(hist.evs)>>)
 EmitCover == (Emit /\ (CoverMod = 1 \/ TLCGet("generated") % CoverMod = 0)) => PrintT(<<"COVER", ToJson(hist.evs)>>)
 =============================================================================
